@@ -9,7 +9,7 @@ func init() {
 			"the keeper passes to the state-change helpers the values it gave to / received from the pool model; the taker fee is the exact difference between what the trader pays and what reaches the pool, and exactly that fee is sent to the collector; the router hands the pool the after-fee coin.",
 		NotCovered:  []string{"bank balance = reported reserves over histories (direct sends are allowed by the statement)", "supply of non-share tokens (bank module semantics)", "cosmwasm pools", "pool-model internals (C04)"},
 		Assumptions: []string{"bank keeper MintCoins/BurnCoins/SendCoins semantics"},
-		MinObl:      31,
+		MinObl:      48,
 		Run:         runC02,
 	})
 }
@@ -67,4 +67,24 @@ func runC02(c *rules.Ctx) {
 	// ---- writers
 	c.WhoMayCall(K+"setPool", []string{"gammkeeper.Keeper.updatePoolForSwap", "gammkeeper.Keeper.applyJoinPoolStateChange", "gammkeeper.Keeper.applyExitPoolStateChange", "gammkeeper.Keeper.InitializePool",
 		"gammkeeper.Keeper.setStableSwapScalingFactors", "gammkeeper.Keeper.setStableSwapScalingFactorController", "gammkeeper.Keeper.InitGenesis", "gammkeeper.Keeper.OverwritePoolV15MigrationUnsafe"}, "pool records are written only by the swap/join/exit helpers, pool creation, the scaling-factor setters, genesis and the v15 migration")
+	// ---- each entry changes the pool model exactly once (a quote is taken with the read-only Calc* form)
+	mut := "gammtypes.CFMMPoolI.JoinPool|gammtypes.CFMMPoolI.JoinPoolNoSwap|gammtypes.CFMMPoolI.ExitPool|gammtypes.CFMMPoolI.SwapOutAmtGivenIn|gammtypes.CFMMPoolI.SwapInAmtGivenOut|" +
+		"gammtypes.PoolAmountOutExtension.IncreaseLiquidity|gammtypes.PoolAmountOutExtension.JoinPoolTokenInMaxShareAmountOut|gammtypes.PoolAmountOutExtension.ExitSwapExactAmountOut|" +
+		"gammtypes.PoolAmountOutExtension.JoinPool|gammtypes.PoolAmountOutExtension.JoinPoolNoSwap|gammtypes.PoolAmountOutExtension.ExitPool|gammtypes.PoolAmountOutExtension.SwapOutAmtGivenIn|gammtypes.PoolAmountOutExtension.SwapInAmtGivenOut"
+	for _, fn := range []string{"JoinPoolNoSwap", "JoinSwapExactAmountIn", "JoinSwapShareAmountOut", "ExitPool", "ExitSwapExactAmountOut", "SwapExactAmountIn", "SwapExactAmountOut"} {
+		c.ExactlyOnce(K+fn, mut, "the pool's reserves/shares are changed exactly once per operation (one bank movement, one reserve update)")
+	}
+	c.ExactlyOnce(K+"JoinPoolNoSwap", "gammkeeper.Keeper.applyJoinPoolStateChange", "…and persisted/settled exactly once")
+	c.ExactlyOnce(K+"JoinSwapExactAmountIn", "gammkeeper.Keeper.applyJoinPoolStateChange", "…and persisted/settled exactly once")
+	c.ExactlyOnce(K+"JoinSwapShareAmountOut", "gammkeeper.Keeper.applyJoinPoolStateChange", "…and persisted/settled exactly once")
+	c.ExactlyOnce(K+"ExitPool", "gammkeeper.Keeper.applyExitPoolStateChange", "…and persisted/settled exactly once")
+	c.ExactlyOnce(K+"ExitSwapExactAmountOut", "gammkeeper.Keeper.applyExitPoolStateChange", "…and persisted/settled exactly once")
+	c.ExactlyOnce(K+"SwapExactAmountIn", "gammkeeper.Keeper.updatePoolForSwap", "…and persisted/settled exactly once")
+	c.ExactlyOnce(K+"SwapExactAmountOut", "gammkeeper.Keeper.updatePoolForSwap", "…and persisted/settled exactly once")
+	// ---- the router hands a pool module the pool as read for this hop, never a copy an earlier hop has made stale
+	const R = "x/poolmanager.Keeper."
+	swaps := "poolmanagertypes.PoolModuleI.SwapExactAmountIn|poolmanagertypes.PoolModuleI.SwapExactAmountOut"
+	c.FreshRead(R+"RouteExactAmountOut", "poolmanager.Keeper.GetPoolModuleAndPool", swaps, "poolmanagertypes.PoolModuleI.SwapExactAmountOut", 3, "each hop of an exact-out route swaps against the pool read after the previous hop (a route may visit a pool twice)")
+	c.FreshRead(R+"SwapExactAmountIn", "poolmanager.Keeper.GetPoolModuleAndPool", swaps, "poolmanagertypes.PoolModuleI.SwapExactAmountIn", 3, "a hop swaps against the pool it has just read")
+	c.FreshRead(R+"SwapExactAmountInNoTakerFee", "poolmanager.Keeper.GetPoolModuleAndPool", swaps, "poolmanagertypes.PoolModuleI.SwapExactAmountIn", 3, "a hop swaps against the pool it has just read")
 }
